@@ -112,6 +112,14 @@ class Ctx:
             v = t.args[0]
             return atom(t)
         if op == "int_of":
+            w = window(t.args[0])
+            if w is not None:
+                base, lo, hi = w
+                c = mk("hdr", base, self.lin(lo).key(), self.lin(hi).key(), t.args[1], t.args[2])
+                r = int_range(t.args[1], self.usize_bits)
+                if r:
+                    self.rng(c, r[0], r[1])
+                return atom(c)
             ty = t.args[1]
             r = int_range(ty, self.usize_bits)
             if r:
@@ -258,3 +266,12 @@ def same_value(ctx, a, b):
     """normal forms equal (syntactic linear equality)"""
     la, lb = ctx.lin(a), ctx.lin(b)
     return la.add(lb, -1).is_const() and la.add(lb, -1).c == 0
+
+
+def window(t):
+    """(base value, lo term, hi term) when t designates a contiguous window of a base sequence"""
+    while is_t(t) and t.op in ("refv", "copied", "as_array", "conv"):
+        t = t.args[0]
+    if is_t(t) and t.op == "slice":
+        return t.args[0], t.args[1], t.args[2]
+    return None
